@@ -141,6 +141,21 @@ def run(chk):
                 if np.any(np.abs(tot - want) > 1e-6 * N0 + 1e-3 * abs(rate) * np.array(tout)):
                     chk.fail("integrated over time N(t) = N0 + integral of the rate when all remnants are retained",
                              dict(stellar_evolution=sev, norm=nrm, rate=rate, N0=N0, tout=tout), dict(N=tot.tolist(), expected=want.tolist()))
+    # ---- measured, not judged: drift of the BINNED mass under norm 'M' (one power law per bin is an approximation) ----------
+    from ssptools.masses import Pk
+    drift = []
+    for nbl, md_ in (([1, 1, 2], 0.6), ([2, 2, 4], 0.6), ([5, 5, 20], 1.2)):
+        m = emf.EvolvedMF.from_powerlaw([0.1, 0.5, 1.0, 100], [-0.5, -1.3, -2.5], nbl, -1.0, [12000.0], -5.0, N0=1e6, esc_norm="M", md=md_, tcc=0.0)
+        mbk = m.massbins
+        y = mbk.pack_values(m.Ns[-1], m.alpha[-1], *[x[-1] for x in m.Nr], *[x[-1] for x in m.Mr])
+        dNs, dal, dNr, dMr = mbk.unpack_values(m._derivs_esc(12000.0, y), grouped_rem=True)
+        Ns_, al_, _, _ = mbk.unpack_values(y, grouped_rem=True)
+        tb_ = mbk.turned_off_bins(m.compute_mto(12000.0))
+        Mf = lambda N, a: N * Pk(a, 2, *tb_) / Pk(a, 1, *tb_)       # noqa
+        h = 1e-6
+        impl_rate = float(np.nansum((Mf(Ns_ + h * dNs, al_ + h * dal) - Mf(Ns_ - h * dNs, al_ - h * dal)) / (2 * h)) + sum(x.sum() for x in dMr))
+        drift.append(dict(nbins=nbl, md=md_, requested_rate=-5.0, binned_mass_rate=impl_rate, relative_drift=impl_rate / -5.0 - 1))
+    chk.extra["binned_mass_drift"] = drift
     chk.trusted += ["harness/props/C03.py, fieldutil.py", "numpy pairwise summation vs left-to-right sums (tolerance 1e-8)",
                     "scipy.integrate.quad as oracle for the 1-sqrt(m/md) weighted integrals", "FloatFun pow/ln/sqrt"]
 
